@@ -28,6 +28,82 @@ type c17Case struct {
 	Value string `json:"value"` // decimal
 	Type  string `json:"arg_type"`
 	Mask  []int  `json:"mask_args"`
+	// window arguments of a type other than int, as two's complement values
+	TypedMask []uint64 `json:"typed_mask_args,omitempty"`
+}
+
+var c17MaskTypes = []string{"int8", "int16", "int32", "int64", "uint8", "uint16", "uint32", "uint64", "uint", "uintptr"}
+
+// c17MaskRange returns the smallest and largest value of the type as two's complement 64-bit words.
+func c17MaskRange(t string) (lo, hi uint64) {
+	switch t {
+	case "int8":
+		return uint64(0xffffffffffffff80), 0x7f
+	case "int16":
+		return uint64(0xffffffffffff8000), 0x7fff
+	case "int32":
+		return uint64(0xffffffff80000000), 0x7fffffff
+	case "int64":
+		return 1 << 63, 1<<63 - 1
+	case "uint8":
+		return 0, 0xff
+	case "uint16":
+		return 0, 0xffff
+	case "uint32":
+		return 0, 0xffffffff
+	}
+	return 0, ^uint64(0)
+}
+
+func c17Signed(t string, m []uint64) string {
+	var out []string
+	for _, x := range m {
+		if t[0] == 'i' {
+			out = append(out, fmt.Sprint(int64(x)))
+		} else {
+			out = append(out, fmt.Sprint(x))
+		}
+	}
+	return "[" + strings.Join(out, " ") + "]"
+}
+
+func c17TypedMask[M int8 | int16 | int32 | int64 | uint8 | uint16 | uint32 | uint64 | uint | uintptr](name string, v uint32, m []uint64) (*of.MatchField, error) {
+	tm := make([]M, len(m))
+	for i, x := range m {
+		tm[i] = M(x)
+	}
+	return of.NewMatchField(name, v, tm...)
+}
+
+func c17CallTyped(name string, v uint32, t string, m []uint64) (f *of.MatchField, err error, pn any) {
+	defer func() {
+		if p := recover(); p != nil {
+			pn = p
+		}
+	}()
+	switch t {
+	case "int8":
+		f, err = c17TypedMask[int8](name, v, m)
+	case "int16":
+		f, err = c17TypedMask[int16](name, v, m)
+	case "int32":
+		f, err = c17TypedMask[int32](name, v, m)
+	case "int64":
+		f, err = c17TypedMask[int64](name, v, m)
+	case "uint8":
+		f, err = c17TypedMask[uint8](name, v, m)
+	case "uint16":
+		f, err = c17TypedMask[uint16](name, v, m)
+	case "uint32":
+		f, err = c17TypedMask[uint32](name, v, m)
+	case "uint64":
+		f, err = c17TypedMask[uint64](name, v, m)
+	case "uint":
+		f, err = c17TypedMask[uint](name, v, m)
+	case "uintptr":
+		f, err = c17TypedMask[uintptr](name, v, m)
+	}
+	return
 }
 
 var c17Types = []string{"uint8", "uint16", "uint32", "uint64", "int", "int8", "int16", "int32", "int64", "bytes", "ip", "mac", "big"}
@@ -472,6 +548,84 @@ func c17(r *ev.Run, replay string) {
 			}
 		}
 	}
+	// the window arguments may have any integer type. In every type: a window inside the field gives the
+	// same field as with int arguments; the type's largest value and (signed types) its smallest value as
+	// offset or as width lie beyond every field and are refused with an error, whatever they turn into
+	// when converted to another integer type on the way
+	for _, mt := range c17MaskTypes {
+		for _, rep := range []string{"NXM_NX_REG3", "NXM_NX_TUN_ID", "NXM_NX_XXREG0"} {
+			info := wire.OxmByName[rep]
+			if info == nil {
+				continue
+			}
+			bits := uint64(8 * info.Width)
+			lo, hi := c17MaskRange(mt)
+			type tc struct {
+				v    uint32
+				mask []uint64 // two's complement of the typed value
+				ok   bool
+			}
+			cases := []tc{{0xb, []uint64{4, 8}, true}, {1, []uint64{bits - 1, 1}, true}, {0, []uint64{0, bits}, true}, {3, []uint64{1, 2, 0}, false}}
+			for _, ext := range []uint64{hi, lo, hi - 1, hi/2 + 1} {
+				if int64(ext) >= 0 && ext <= bits {
+					continue
+				}
+				cases = append(cases, tc{1, []uint64{ext, 1}, false}, tc{1, []uint64{0, ext}, false}, tc{0, []uint64{ext, 0}, false}, tc{0, []uint64{0, ext}, false}, tc{1, []uint64{ext, ext}, false}, tc{1, []uint64{ext}, false})
+			}
+			for _, c := range cases {
+				fits := true
+				for _, x := range c.mask {
+					if c.ok && x > hi {
+						fits = false // the window itself cannot be said in this type
+					}
+				}
+				if !fits {
+					continue
+				}
+				calls++
+				r.Add("transitions", 1)
+				f, err, pn := c17CallTyped(rep, c.v, mt, c.mask)
+				cs := c17Case{Name: rep, Value: fmt.Sprint(c.v), Type: "uint32 with " + mt + " window arguments", Mask: nil, TypedMask: c.mask}
+				what := fmt.Sprintf("NewMatchField(%q, uint32(%d), %s window %v)", rep, c.v, mt, c17Signed(mt, c.mask))
+				switch {
+				case pn != nil:
+					r.Violation("panic:typed-window:"+mt, fmt.Sprintf("panicked: %v: %s", pn, what), cs)
+				case c.ok:
+					var im []int
+					for _, x := range c.mask {
+						im = append(im, int(x))
+					}
+					g, gerr := of.NewMatchField(rep, c.v, im...)
+					if gerr != nil {
+						continue
+					}
+					if err != nil || f == nil {
+						r.Violation("representable-rejected:typed-window:"+mt, fmt.Sprintf("a window that int arguments describe as well is rejected: %v: %s", err, what), cs)
+						continue
+					}
+					fb, _ := f.MarshalBinary()
+					gb, _ := g.MarshalBinary()
+					if !bytes.Equal(fb, gb) {
+						r.Violation("typed-window-differs:"+mt, fmt.Sprintf("encodes to %x, the same window given as int arguments to %x: %s", fb, gb, what), cs)
+					}
+				case len(c.mask) == 3 && c.ok == false && c.mask[0] <= bits:
+					// three-argument form inside the field: only no panic
+				case err == nil:
+					got := ""
+					if f != nil {
+						got = fmt.Sprintf("value %x mask %x", payloadOfField(f.Value), payloadOfField(f.Mask))
+					}
+					if len(c.mask) == 1 {
+						continue // the one-argument form derives its width from the value
+					}
+					r.Violation("unrepresentable-accepted:typed-window:"+mt, fmt.Sprintf("a window beyond the field was accepted (%s): %s", got, what), cs)
+				default:
+					r.Outcome("error-as-expected")
+				}
+			}
+		}
+	}
+	r.Completed("window arguments of every integer type (int8..int64, uint8..uint64, uint, uintptr): windows inside the field agree with int arguments; the extreme values of each type are refused without a panic")
 	for _, bogus := range []string{"", "NXM_NX_REG16", "OXM_OF_NOPE"} {
 		calls++
 		f, err, pn, _ := c17Call(bogus, big.NewInt(1), "uint8", []int{0, 1})
